@@ -57,6 +57,11 @@ def gen_config(rng, tier, profile):
     s['CARBON_METRIC_INTERVAL'] = rng.choice([5, 10, 30])    # counters are reported and reset at ticks
   if profile == 'c10' and rng.random() < 0.25:
     s['CARBON_METRIC_INTERVAL'] = rng.choice([5, 10, 30])    # the daemon reports its own counters
+  if profile == 'c02' and rng.random() < 0.12:
+    # a timestamp resolution coarser than the daemon's own reporting interval: client
+    # datapoints reach the cache aligned, the daemon's own records do not
+    s['MIN_TIMESTAMP_RESOLUTION'] = rng.choice([10, 60])
+    s['CARBON_METRIC_INTERVAL'] = 5
   cfg = {'daemon': 'cache', 'settings': s, 'files': {}, 'profile': profile}
   if profile == 'c19':
     from . import c19
